@@ -329,12 +329,16 @@ type BlockRes struct {
 
 // BeginBlock starts block height+1 at time+dt.
 func (w *World) BeginBlock(dt time.Duration) (res abci.ResponseBeginBlock, pan string) {
+	return w.BeginBlockAt(w.Time.Add(dt))
+}
+
+// BeginBlockAt starts block height+1 at the absolute time t.
+func (w *World) BeginBlockAt(t time.Time) (res abci.ResponseBeginBlock, pan string) {
 	defer func() {
 		if r := recover(); r != nil {
 			pan = fmt.Sprint(r)
 		}
 	}()
-	t := w.Time.Add(dt)
 	w.hdr = tmproto.Header{ChainID: ChainID, Height: w.Height + 1, Time: t, AppHash: w.App.LastCommitID().Hash}
 	res = w.App.BeginBlock(abci.RequestBeginBlock{Header: w.hdr})
 	w.inBlk = true
